@@ -377,6 +377,8 @@ class Sym:
     def of(x):
         if isinstance(x, Sym):
             return x
+        if hasattr(x, "ndim") and hasattr(x, "item") and getattr(x, "ndim", 1) == 0:
+            return Sym.of(x.item())       # 0-d numpy array (e.g. np.sum over an object array subclass)
         p = lift(x)
         if p is None:
             raise TypeError(f"cannot lift {type(x)} to Sym")
